@@ -483,6 +483,9 @@ pub struct SenderScript {
     pub spacing_ms: u64,
     pub checksum: ChecksumType,
     pub crc: bool,
+    /// a late duplicate of this segment, sent this many ms after the Finished PDU was acknowledged
+    /// (the transaction has ended by then: the daemon starts a new receive transaction for it)
+    pub late_dup: Option<(usize, u64)>,
 }
 #[derive(Clone, Copy, Debug, PartialEq)]
 pub enum Item {
@@ -573,10 +576,15 @@ impl Peer for ScriptedSender {
                 }
             }
             PDUPayload::Directive(Operations::Finished(f)) => {
-                if !self.finished {
-                    self.finished = true;
-                }
+                let first = !self.finished;
+                self.finished = true;
                 ctx.send(1, mk_pdu(&self.header, Direction::ToReceiver, PDUPayload::Directive(Operations::Ack(PositiveAcknowledgePDU { directive: PDUDirective::Finished, directive_subtype_code: ACKSubDirective::Finished, condition: f.condition, transaction_status: TransactionStatus::Terminated }))), 0);
+                if let (true, Some((i, after))) = (first, self.s.late_dup) {
+                    if i * self.s.seg < self.s.size {
+                        let (a, l) = self.seg_range(i);
+                        ctx.send(1, self.fd(a, l), after);
+                    }
+                }
             }
             _ => {}
         }
@@ -651,7 +659,7 @@ pub fn c08_script(fam: &str, idx: usize, seed: u64) -> Option<(SenderScript, Kno
                 }
             }
             order.push(Item::E);
-            let sc = SenderScript { size, seg, content, order, silent_rounds: idx % 2, lose_again: vec![], dup_eof: idx % 5 == 0, prompt_after: None, spacing_ms: 2, checksum: ChecksumType::Modular, crc: idx % 4 == 1 };
+            let sc = SenderScript { size, seg, content, order, silent_rounds: idx % 2, lose_again: vec![], dup_eof: idx % 5 == 0, prompt_after: None, spacing_ms: 2, checksum: ChecksumType::Modular, crc: idx % 4 == 1, late_dup: if idx % 3 == 0 && n > 0 { Some((n - 1, [50u64, 600, 1500][(idx / 3) % 3])) } else { None } };
             let desc = format!("subset: nak={} seg={} segments={} lost-mask={:#b} (bit0 = metadata)", nak_name(&k.nak), seg, n, mask);
             Some((sc, k, desc))
         }
@@ -696,8 +704,9 @@ pub fn c08_script(fam: &str, idx: usize, seed: u64) -> Option<(SenderScript, Kno
             }
             let lose_again: Vec<usize> = (0..nseg).filter(|_| rng.chance(1, 4)).collect();
             let prompt_after = if rng.chance(1, 3) { Some(rng.usize(order.len())) } else { None };
-            let sc = SenderScript { size, seg, content, order, silent_rounds: rng.usize(3), lose_again, dup_eof: rng.chance(1, 4), prompt_after, spacing_ms: *rng.pick(&[1u64, 2, 300, 700]), checksum: if rng.chance(1, 5) { ChecksumType::Null } else { ChecksumType::Modular }, crc: rng.bool() };
-            let desc = format!("orders: nak={} seg={} size={} order={:?} silent_rounds={} lose_again={:?} dup_eof={} prompt_after={:?} spacing={}ms", nak_name(&k.nak), seg, size, sc.order, sc.silent_rounds, sc.lose_again, sc.dup_eof, sc.prompt_after, sc.spacing_ms);
+            let late_dup = if nseg > 0 && rng.bool() { Some((rng.usize(nseg), *rng.pick(&[5u64, 50, 400, 900, 1500, 5000]))) } else { None };
+            let sc = SenderScript { size, seg, content, order, silent_rounds: rng.usize(3), lose_again, dup_eof: rng.chance(1, 4), prompt_after, spacing_ms: *rng.pick(&[1u64, 2, 300, 700]), checksum: if rng.chance(1, 5) { ChecksumType::Null } else { ChecksumType::Modular }, crc: rng.bool(), late_dup };
+            let desc = format!("orders: nak={} seg={} size={} order={:?} silent_rounds={} lose_again={:?} dup_eof={} prompt_after={:?} spacing={}ms late_dup={:?}", nak_name(&k.nak), seg, size, sc.order, sc.silent_rounds, sc.lose_again, sc.dup_eof, sc.prompt_after, sc.spacing_ms, sc.late_dup);
             Some((sc, k, desc))
         }
         _ => None,
@@ -826,6 +835,24 @@ pub fn judge_c08(info: &Info, log: &RunLog, rep: &mut Report) {
             rep.violate("nak-before-eof-in-deferred-mode", cfg.clone(), &info.case, w("deferred NAK procedure, yet a NAK was emitted before the EOF arrived and without a prompt"));
         }
         let _ = md;
+    }
+    // ---- later lives (a receive transaction re-created by a late duplicate after the first one ended):
+    // it runs under the same configuration, so under the deferred procedure it, too, stays silent
+    // until an EOF or a prompt reaches it
+    for sp in d.spans(id, TaskKind::Recv).iter().skip(1) {
+        let (s0, s1) = (sp.start_us, sp.end_us.unwrap_or(u64::MAX));
+        rep.count("c08_later_lives_seen");
+        if immediate {
+            continue;
+        }
+        rep.count("c08_later_lives_judged(deferred)");
+        for e in d.emits(1, id).into_iter().filter(|e| e.3 == Kind::Nak && e.1 >= s0 && e.1 <= s1 && e.1 > first_end) {
+            let solicited = d.arrivals(1, id).into_iter().any(|a| a.1 >= first_end && a.1 <= e.1 && matches!(a.2, Kind::Eof | Kind::Prompt));
+            if !solicited {
+                rep.violate("nak-before-eof-in-deferred-mode", format!("{} life=re-created", cfg), &info.case, w("deferred NAK procedure configured for this peer, yet the receive transaction re-created by a late duplicate emitted a NAK although neither an EOF nor a prompt had reached it"));
+                break;
+            }
+        }
     }
     // ---- after EOF: the requests issued between two deliveries cover exactly what is missing
     // epoch = interval between consecutive deliveries of file data / metadata (or EOF) to the receiver
@@ -1012,7 +1039,7 @@ pub fn run_c08(tier: &str, seed: u64, replay: Option<&str>) -> (Meta, Report) {
         rule: "one real receiving daemon against a scripted sender that knows exactly what it delivered. subsets = EVERY subset of {metadata, segment 0..n-1} lost, n = 0..6 segments, x 4 NAK procedures x segment sizes {16 (one request per NAK PDU: rounds split over several PDUs), 20 (not a multiple of the request size), 32} (complete), with 0 or 1 unanswered rounds and a duplicated EOF in every 5th case; orders = random loss subsets with arrival orders {in order, reversed, shuffled, EOF first, EOF in the middle, duplicates}, re-lost segments, 0-2 unanswered rounds, Prompt(NAK) at a random point, slow and fast pacing. The script answers a round 300 ms after its last PDU so that rounds are not cut short. distinct_nontrivial = distinct (config, size, event-order) signatures among runs in which at least one NAK was emitted.".into(),
         exhaustive: true,
         assumptions: vec!["the only size limit the configuration defines is the largest file-data PDU: header + offset + segment size (+CRC)".into(), "before EOF a request for bytes that arrived meanwhile is not judged (the statement demands exactness after EOF); it must still be well-formed".into()],
-        require: vec![("c08_nak_pdus_checked".into(), 1000), ("c08_rounds_after_eof_judged".into(), 1000), ("c08_rounds_split_over_several_pdus".into(), 100), ("c08_immediate_gaps_judged".into(), 100), ("c08_round_repeats_judged".into(), 200)],
+        require: vec![("c08_nak_pdus_checked".into(), 1000), ("c08_rounds_after_eof_judged".into(), 1000), ("c08_rounds_split_over_several_pdus".into(), 100), ("c08_immediate_gaps_judged".into(), 100), ("c08_round_repeats_judged".into(), 200), ("c08_later_lives_judged(deferred)".into(), 200)],
         extra: vec![],
     };
     if let Some(r) = replay {
